@@ -66,7 +66,7 @@ PROPS = {
     'C02': dict(
         vfile='Props/C02.v', ties=['Tie/TieEnv.v', 'Tie/TieFloor.v'],
         families=[('floor', 400, 12000, 'small', 'large')],
-        rule='F_floor scenarios: layered production lines (sources incl. cycle 0 and finite budgets, handlers, processors with resources/callbacks/work orders, buffers with delay and capacity, batchers, decision gates, flow controllers, shared groups reached through several paths incl. nested and re-entrant use, sinks), scripted failures/shutdowns/restores/blocking/capacity changes/budget adjustments/one-shot offsets/mid-run rewiring, many single steps then runs, generated from VERIF_SEED (corpus/floor first); '
+        rule='F_floor scenarios: layered production lines (sources incl. cycle 0 and finite budgets, handlers, processors with resources/callbacks/work orders, buffers with delay and capacity, batchers, decision gates, flow controllers, shared groups reached through several paths incl. nested and re-entrant use, sinks), scripted failures/shutdowns/restores/blocking/capacity changes/budget adjustments/one-shot offsets/mid-run rewiring/devices constructed mid-run with upstream devices named in the constructor, many single steps then runs, generated from VERIF_SEED (corpus/floor first); '
              'non-trivial = at least 8 parts received by devices and 3 supplied by sources; distinct by scenario text',
         explanation='The census equation (generated = inside + delivered + lost, as multisets of part identities) proved for every state any well-formed scenario can reach; '
                     'ingredients: an offer raises the census by the part exactly when accepted (induction over the recursive hand-over), a waiting part stays where it is while being offered (frame), '
@@ -78,7 +78,7 @@ PROPS = {
     'C05': dict(
         vfile='Props/C05.v', ties=['Tie/TieEnv.v', 'Tie/TieFloor.v'],
         families=[('floor', 400, 12000, 'small', 'large')],
-        rule='F_floor scenarios: layered production lines (sources incl. cycle 0 and finite budgets, handlers, processors with resources/callbacks/work orders, buffers with delay and capacity, batchers, decision gates, flow controllers, shared groups reached through several paths incl. nested and re-entrant use, sinks), scripted failures/shutdowns/restores/blocking/capacity changes/budget adjustments/one-shot offsets/mid-run rewiring, many single steps then runs, generated from VERIF_SEED (corpus/floor first); '
+        rule='F_floor scenarios: layered production lines (sources incl. cycle 0 and finite budgets, handlers, processors with resources/callbacks/work orders, buffers with delay and capacity, batchers, decision gates, flow controllers, shared groups reached through several paths incl. nested and re-entrant use, sinks), scripted failures/shutdowns/restores/blocking/capacity changes/budget adjustments/one-shot offsets/mid-run rewiring/devices constructed mid-run with upstream devices named in the constructor, many single steps then runs, generated from VERIF_SEED (corpus/floor first); '
              'non-trivial = a buffer is present and its level changed at least 4 times; distinct by scenario text',
         explanation='Buffer invariant (level = stored count <= capacity, entry times non-decreasing, FIFO) proved for every reachable state; the head leaves only when now >= entry + minimum delay; '
                     'tie = fact tables + lock-step on the real Buffer.',
@@ -86,7 +86,7 @@ PROPS = {
     'C13': dict(
         vfile='Props/C13.v', ties=['Tie/TieEnv.v', 'Tie/TieFloor.v', 'Tie/TieMaint.v'],
         families=[('floor', 400, 12000, 'small', 'large'), ('sys', 300, 6000, 'small', 'large')],
-        rule='F_floor scenarios: layered production lines (sources incl. cycle 0 and finite budgets, handlers, processors with resources/callbacks/work orders, buffers with delay and capacity, batchers, decision gates, flow controllers, shared groups reached through several paths incl. nested and re-entrant use, sinks), scripted failures/shutdowns/restores/blocking/capacity changes/budget adjustments/one-shot offsets/mid-run rewiring, many single steps then runs, generated from VERIF_SEED (corpus/floor first); '
+        rule='F_floor scenarios: layered production lines (sources incl. cycle 0 and finite budgets, handlers, processors with resources/callbacks/work orders, buffers with delay and capacity, batchers, decision gates, flow controllers, shared groups reached through several paths incl. nested and re-entrant use, sinks), scripted failures/shutdowns/restores/blocking/capacity changes/budget adjustments/one-shot offsets/mid-run rewiring/devices constructed mid-run with upstream devices named in the constructor, many single steps then runs, generated from VERIF_SEED (corpus/floor first); '
              'non-trivial = a failure or a pause happened and at least 2 parts were produced; distinct by scenario text',
         explanation='Processor state-machine theorems (shut down: accepts nothing, releases nothing; failure: loses exactly the input part; repeated shutdown/restore are no-ops), '
                     'clock invariant and exact uptime/utilisation accounting for every reachable state and every time advance; a clause false of the original code '
@@ -95,7 +95,7 @@ PROPS = {
     'C16': dict(
         vfile='Props/C16.v', ties=['Tie/TieEnv.v', 'Tie/TieFloor.v'],
         families=[('floor', 400, 12000, 'small', 'large'), ('value', 150, 4000, 'small', 'large')],
-        rule='F_floor scenarios: layered production lines (sources incl. cycle 0 and finite budgets, handlers, processors with resources/callbacks/work orders, buffers with delay and capacity, batchers, decision gates, flow controllers, shared groups reached through several paths incl. nested and re-entrant use, sinks), scripted failures/shutdowns/restores/blocking/capacity changes/budget adjustments/one-shot offsets/mid-run rewiring, many single steps then runs, generated from VERIF_SEED (corpus/floor first); '
+        rule='F_floor scenarios: layered production lines (sources incl. cycle 0 and finite budgets, handlers, processors with resources/callbacks/work orders, buffers with delay and capacity, batchers, decision gates, flow controllers, shared groups reached through several paths incl. nested and re-entrant use, sinks), scripted failures/shutdowns/restores/blocking/capacity changes/budget adjustments/one-shot offsets/mid-run rewiring/devices constructed mid-run with upstream devices named in the constructor, many single steps then runs, generated from VERIF_SEED (corpus/floor first); '
              'non-trivial = at least 8 parts received and 3 supplied; distinct by scenario text',
         explanation='Value theorems: a generated part carries the generator value; every device adds its value exactly once on acceptance (guarded transformer), '
                     'sink value = sum of received; cost bookkeeping of work orders (C12_start); tie = lock-step on values of every part/device after every event.',
@@ -103,7 +103,7 @@ PROPS = {
     'C17': dict(
         vfile='Props/C17.v', ties=['Tie/TieEnv.v', 'Tie/TieFloor.v'],
         families=[('floor', 400, 12000, 'small', 'large')],
-        rule='F_floor scenarios: layered production lines (sources incl. cycle 0 and finite budgets, handlers, processors with resources/callbacks/work orders, buffers with delay and capacity, batchers, decision gates, flow controllers, shared groups reached through several paths incl. nested and re-entrant use, sinks), scripted failures/shutdowns/restores/blocking/capacity changes/budget adjustments/one-shot offsets/mid-run rewiring, many single steps then runs, generated from VERIF_SEED (corpus/floor first); '
+        rule='F_floor scenarios: layered production lines (sources incl. cycle 0 and finite budgets, handlers, processors with resources/callbacks/work orders, buffers with delay and capacity, batchers, decision gates, flow controllers, shared groups reached through several paths incl. nested and re-entrant use, sinks), scripted failures/shutdowns/restores/blocking/capacity changes/budget adjustments/one-shot offsets/mid-run rewiring/devices constructed mid-run with upstream devices named in the constructor, many single steps then runs, generated from VERIF_SEED (corpus/floor first); '
              'non-trivial = a batcher is present and at least 6 parts were received; distinct by scenario text',
         explanation='Batcher invariant (an emitted batch has exactly output_batch_size parts in arrival order, unbatching emits members one by one in order, in-progress batch never exceeds the size) '
                     'for every reachable state; tie = lock-step on batch contents after every event.',
@@ -111,14 +111,14 @@ PROPS = {
     'C03': dict(
         vfile='Props/C03.v', ties=['Tie/TieEnv.v', 'Tie/TieFloor.v'],
         families=[('floor', 400, 12000, 'small', 'large')],
-        rule='F_floor scenarios: layered production lines (sources incl. cycle 0 and finite budgets, handlers, processors with resources/callbacks/work orders, buffers with delay and capacity, batchers, decision gates, flow controllers, shared groups reached through several paths incl. nested and re-entrant use, sinks), scripted failures/shutdowns/restores/blocking/capacity changes/budget adjustments/one-shot offsets/mid-run rewiring, many single steps then runs, generated from VERIF_SEED (corpus/floor first); '
+        rule='F_floor scenarios: layered production lines (sources incl. cycle 0 and finite budgets, handlers, processors with resources/callbacks/work orders, buffers with delay and capacity, batchers, decision gates, flow controllers, shared groups reached through several paths incl. nested and re-entrant use, sinks), scripted failures/shutdowns/restores/blocking/capacity changes/budget adjustments/one-shot offsets/mid-run rewiring/devices constructed mid-run with upstream devices named in the constructor, many single steps then runs, generated from VERIF_SEED (corpus/floor first); '
              'non-trivial = at least 8 parts received by devices and 3 supplied by sources; distinct by scenario text',
         explanation='Local wake-up theorems (refused hand-over sets the waiting flag and was refused by every neighbour; a signalled waiting device schedules an attempt now; restore/unblock/budget raise end in a signal). Queue-level invariant for every state reached without an exception, incl. inside a run: a device holding a ready part is flagged waiting or has its own PASS_PART event pending (unless shut down / budget used up) - no ready part is forgotten. The last global step "a flagged part would still be refused when time advances" is decided by the liveness monitor on the implementation and the lock-step. PARTIAL for that step and for termination.',
-        assumptions=['well-posed layouts', 'mid-run rewiring: upstreams are replaced by devices of earlier stages (no cycles, no sinks / group devices as upstreams)', 'termination: harness step bound']),
+        assumptions=['well-posed layouts', 'mid-run rewiring: upstreams are replaced by devices of earlier stages (no cycles, no sinks / group devices as upstreams)', 'devices constructed mid-run: between two events (not from inside an event action), kinds with an upstream side outside groups', 'termination: harness step bound']),
     'C06': dict(
         vfile='Props/C06.v', ties=['Tie/TieEnv.v', 'Tie/TieFloor.v'],
         families=[('floor', 400, 12000, 'small', 'large')],
-        rule='F_floor scenarios: layered production lines (sources incl. cycle 0 and finite budgets, handlers, processors with resources/callbacks/work orders, buffers with delay and capacity, batchers, decision gates, flow controllers, shared groups reached through several paths incl. nested and re-entrant use, sinks), scripted failures/shutdowns/restores/blocking/capacity changes/budget adjustments/one-shot offsets/mid-run rewiring, many single steps then runs, generated from VERIF_SEED (corpus/floor first); '
+        rule='F_floor scenarios: layered production lines (sources incl. cycle 0 and finite budgets, handlers, processors with resources/callbacks/work orders, buffers with delay and capacity, batchers, decision gates, flow controllers, shared groups reached through several paths incl. nested and re-entrant use, sinks), scripted failures/shutdowns/restores/blocking/capacity changes/budget adjustments/one-shot offsets/mid-run rewiring/devices constructed mid-run with upstream devices named in the constructor, many single steps then runs, generated from VERIF_SEED (corpus/floor first); '
              'non-trivial = a failure or a pause happened and at least 2 parts were produced; distinct by scenario text',
         explanation='Timer and interruption lemmas (timer = accept time + max(0, cycle + one-shot offset), offset consumed, FINISH needs exactly its part, shutdown pauses / failure cancels, C07 remaining delay). Queue-level invariant for every exception-free reachable state incl. inside runs: a handler/processor/sink has exactly one uncancelled FINISH_PROCESSING event of its own (pending or paused) while a part is in process and none otherwise - no part without timer, no stale timer after a failure (D4), nothing finished twice. The arithmetic composition "released after exactly the cycle time of operational time" over a run is decided by the cycle-time monitor and the lock-step. PARTIAL for that composition.',
 
@@ -126,21 +126,21 @@ PROPS = {
     'C08': dict(
         vfile='Props/C08.v', ties=['Tie/TieEnv.v', 'Tie/TieFloor.v'],
         families=[('floor', 400, 12000, 'small', 'large')],
-        rule='F_floor scenarios: layered production lines (sources incl. cycle 0 and finite budgets, handlers, processors with resources/callbacks/work orders, buffers with delay and capacity, batchers, decision gates, flow controllers, shared groups reached through several paths incl. nested and re-entrant use, sinks), scripted failures/shutdowns/restores/blocking/capacity changes/budget adjustments/one-shot offsets/mid-run rewiring, many single steps then runs, generated from VERIF_SEED (corpus/floor first); '
+        rule='F_floor scenarios: layered production lines (sources incl. cycle 0 and finite budgets, handlers, processors with resources/callbacks/work orders, buffers with delay and capacity, batchers, decision gates, flow controllers, shared groups reached through several paths incl. nested and re-entrant use, sinks), scripted failures/shutdowns/restores/blocking/capacity changes/budget adjustments/one-shot offsets/mid-run rewiring/devices constructed mid-run with upstream devices named in the constructor, many single steps then runs, generated from VERIF_SEED (corpus/floor first); '
              'non-trivial = a gate or group path is present and at least 6 parts were received; distinct by scenario text',
         explanation='Local routing theorems (offers go to exactly the configured downstream neighbours, longest idle first; gates and blocked inputs refuse; history extended by the accepting device; identities preserved); and, for every exception-free history incl. every state inside a run, a handler/processor/sink that reports a waiting-for-part time (the sort key) holds nothing in either slot (Proofs/FloorWait.v, premise: the initialised world passes the computable wait_okb). Whole-route history / group path matching decided by the routing monitor and lock-step. PARTIAL.',
         assumptions=['well-posed layouts', 'groups nested one level deep at most']),
     'C11': dict(
         vfile='Props/C11.v', ties=['Tie/TieEnv.v', 'Tie/TieFloor.v', 'Tie/TieRM.v'],
         families=[('floor', 400, 12000, 'small', 'large')],
-        rule='F_floor scenarios: layered production lines (sources incl. cycle 0 and finite budgets, handlers, processors with resources/callbacks/work orders, buffers with delay and capacity, batchers, decision gates, flow controllers, shared groups reached through several paths incl. nested and re-entrant use, sinks), scripted failures/shutdowns/restores/blocking/capacity changes/budget adjustments/one-shot offsets/mid-run rewiring, many single steps then runs, generated from VERIF_SEED (corpus/floor first); '
+        rule='F_floor scenarios: layered production lines (sources incl. cycle 0 and finite budgets, handlers, processors with resources/callbacks/work orders, buffers with delay and capacity, batchers, decision gates, flow controllers, shared groups reached through several paths incl. nested and re-entrant use, sinks), scripted failures/shutdowns/restores/blocking/capacity changes/budget adjustments/one-shot offsets/mid-run rewiring/devices constructed mid-run with upstream devices named in the constructor, many single steps then runs, generated from VERIF_SEED (corpus/floor first); '
              'non-trivial = a processor declares resources and at least 4 resource records were written; distinct by scenario text',
         explanation='World-level invariant proved for every reachable state (every event, any weights): pool usage = sum of declared requirements of holding devices, each holder holds exactly its declaration, no sharing; acceptance needs the reservation; failure releases; shutdown keeps. Queue-level link invariant proved for every state reached without an exception, including every state inside a run: a holder without a part in process has its own uncancelled RELEASE event pending at the current instant (or paused with the shut-down device), hence no idle operational processor holds resources when time advances (C11_idle_holds_nothing).',
         assumptions=['well-posed layouts', 'requests with distinct resource names']),
     'C15': dict(
         vfile='Props/C15.v', ties=['Tie/TieEnv.v', 'Tie/TieFloor.v', 'Tie/TieRM.v', 'Tie/TieMaint.v'],
         families=[('floor', 400, 12000, 'small', 'large')],
-        rule='F_floor scenarios: layered production lines (sources incl. cycle 0 and finite budgets, handlers, processors with resources/callbacks/work orders, buffers with delay and capacity, batchers, decision gates, flow controllers, shared groups reached through several paths incl. nested and re-entrant use, sinks), scripted failures/shutdowns/restores/blocking/capacity changes/budget adjustments/one-shot offsets/mid-run rewiring, many single steps then runs, generated from VERIF_SEED (corpus/floor first); '
+        rule='F_floor scenarios: layered production lines (sources incl. cycle 0 and finite budgets, handlers, processors with resources/callbacks/work orders, buffers with delay and capacity, batchers, decision gates, flow controllers, shared groups reached through several paths incl. nested and re-entrant use, sinks), scripted failures/shutdowns/restores/blocking/capacity changes/budget adjustments/one-shot offsets/mid-run rewiring/devices constructed mid-run with upstream devices named in the constructor, many single steps then runs, generated from VERIF_SEED (corpus/floor first); '
              'non-trivial = at least 8 parts received and 3 supplied; distinct by scenario text',
         explanation='Records only appended; each record carries the state of its moment; level record = level; resource record = pool. Device/data-log link invariant for every exception-free reachable state incl. inside runs: source produced counter = number of its supplied-part records, last level record of a buffer = its level (resource-manager and maintainer records proved to carry other labels). Exactly-one-record-per-occurrence for the other kinds, the sink counter (parts vs hand-overs) and last-resource-record = pool over runs are decided by the record monitor and the lock-step on the full data log. PARTIAL for those.',
         assumptions=['well-posed layouts', 'the event trace (trace=True) is not part of the Coq model: it is checked on the implementation by the monitor (events taken off the queue while tracing vs. trace entries and exported file)']),
